@@ -66,6 +66,8 @@ type trUnit struct {
 	queues   []string           // source texts of buffered channels the code uses as bounded queues (`GoQueue`)
 	constPtr []string           // pointer parameters that are only read: passed by value
 	scanners []string           // variables that are `*bufio.Scanner`s: the list of the lines still to come (`for v.Scan() { … v.Text() … }`)
+	joinIfs  bool               // an `if` without `else` whose body only assigns is translated as `let vars := if c then … else vars`
+	                            // (the statements behind it stand once, not once per branch)
 }
 
 type trEffect struct {
@@ -108,6 +110,10 @@ var trUnits = []trUnit{
 	{ns: "Config", pkgDir: "internal/config", panics: true,
 		structs: map[string][]string{},
 		funcs:   []string{"setOption", "DeserializeOptions"}},
+	{ns: "ClientArgs", pkgDir: "internal/config", joinIfs: true,
+		structs: map[string][]string{"Args": {"LContext", "Quiet", "Plain", "Serverless"}},
+		bufVars: []string{"sb"},
+		funcs:   []string{"Args.SerializeOptions"}},
 	{ns: "Decode", pkgDir: "internal/server/handlers", panics: true,
 		structs: map[string][]string{"baseHandler": {"writeBuf"}},
 		bufVars: []string{"h.writeBuf"},
@@ -303,6 +309,8 @@ func recvTypeName(e ast.Expr) string {
 		return recvTypeName(t.X)
 	case *ast.Ident:
 		return t.Name
+	case *ast.SelectorExpr:
+		return t.Sel.Name // an embedded field of a type of another package is named after the type
 	}
 	return "?"
 }
@@ -1838,7 +1846,50 @@ func (f *trFn) callBind(ind string, lhs []ast.Expr, define bool, call *ast.CallE
 	return f.bindTuple(ind, lhs, define, e, k)
 }
 
+// onlyAssigns: the statements assign variables and do nothing else (no call that must be bound, no control transfer)
+func (f *trFn) onlyAssigns(l []ast.Stmt) bool {
+	for _, s := range l {
+		as, ok := s.(*ast.AssignStmt)
+		if !ok || as.Tok == token.DEFINE {
+			return false
+		}
+		for _, r := range as.Rhs {
+			if call, ok := r.(*ast.CallExpr); ok {
+				if f.isTranslatedMethodCall(call) || f.p.calleeKey(f.key, call) != "" {
+					return false
+				}
+				if _, ef := f.effectOf(call); ef != nil {
+					return false
+				}
+			}
+		}
+	}
+	return true
+}
+
 func (f *trFn) ifStmt(ind string, st *ast.IfStmt, k cont) string {
+	if f.p.unit.joinIfs && st.Else == nil && st.Init == nil && f.onlyAssigns(st.Body.List) && len(f.guards(st.Cond)) == 0 {
+		vars := f.assignedOuter(st.Body.List)
+		if len(vars) > 0 {
+			tuple := func() string {
+				var parts []string
+				for _, n := range vars {
+					parts = append(parts, f.v(n))
+				}
+				if len(parts) == 1 {
+					return parts[0]
+				}
+				return "(" + strings.Join(parts, ", ") + ")"
+			}
+			before := tuple()
+			out := fmt.Sprintf("%slet %s :=\n%s  if %s then\n", ind, before, ind, f.expr(st.Cond))
+			f.push()
+			out += f.stmts(ind+"    ", st.Body.List, func(ind string) string { return ind + tuple() + "\n" })
+			f.pop()
+			out += fmt.Sprintf("%s  else\n%s    %s\n", ind, ind, before)
+			return out + k(ind)
+		}
+	}
 	// a condition that is a call which updates a variable through a pointer, or can panic, is bound first
 	if call, ok := st.Cond.(*ast.CallExpr); ok && st.Init == nil {
 		if key := f.p.calleeKey(f.key, call); key != "" && (f.p.canPanic[key] || f.p.sigs[key].ptrParam != "" || f.p.sigs[key].ptrRecv) {
@@ -2051,6 +2102,22 @@ func (f *trFn) rangeStmt(ind string, st *ast.RangeStmt, k cont) string {
 	if id, ok := st.X.(*ast.Ident); ok && f.chanVars[id.Name] && st.Value == nil && st.Key != nil {
 		// `for x := range ch`: the elements of the channel (translated as the list of what arrives on it)
 		st = &ast.RangeStmt{For: st.For, Key: ast.NewIdent("_"), Value: st.Key, Tok: st.Tok, X: st.X, Body: st.Body}
+	}
+	if id, ok := st.X.(*ast.Ident); ok && f.mapVars[id.Name] {
+		// `for k, v := range m`: Go visits the entries in an order of its choosing — `ext.mapOrder` is that choice (the caller of
+		// a theorem says that it is a permutation)
+		return f.loopOver(ind, "(ext.mapOrder "+f.v(id.Name)+".entries)", st.Body.List, func() string {
+			k, v := "_k", "_v"
+			if kid, ok := st.Key.(*ast.Ident); ok && kid.Name != "_" {
+				k = f.declare(kid.Name)
+			}
+			if st.Value != nil {
+				if vid, ok := st.Value.(*ast.Ident); ok && vid.Name != "_" {
+					v = f.declare(vid.Name)
+				}
+			}
+			return "(" + k + ", " + v + ")"
+		}, k)
 	}
 	keyName := ""
 	if st.Key != nil {
@@ -2698,6 +2765,9 @@ func (f *trFn) sprintf(v *ast.CallExpr) string {
 		trFail(v, "format is not a constant")
 	}
 	format, _ := constStr(c)
+	if (format == "%v" || format == "%d") && len(v.Args) == 2 {
+		return "(GoFmt.fmt ext " + f.expr(v.Args[1]) + ")" // how a value of this type is printed: `true` / `false`, `ext.fmtInt`
+	}
 	parts := strings.Split(format, "%s")
 	if len(parts) != len(v.Args) || strings.Contains(strings.Join(parts, ""), "%") {
 		trFail(v, "fmt.Sprintf format %q: only %%s verbs, one per argument", format)
